@@ -135,3 +135,21 @@ async fn streaming_process(
 
     Ok(())
 }
+
+#[cfg(feature = "verif")]
+pub mod verif {
+    use super::*;
+
+    /// The private `streaming_process` (the body of the journal thread), so that a harness
+    /// can run it on a runtime it controls instead of on a free-running thread.
+    pub async fn streaming_process(
+        writer: JournalWriter,
+        receiver: EventStreamReceiver,
+        journal_path: PathBuf,
+        flush_period: Duration,
+    ) -> anyhow::Result<()> {
+        super::streaming_process(writer, receiver, &journal_path, flush_period).await
+    }
+
+    pub use super::EventStreamReceiver;
+}
